@@ -169,6 +169,9 @@ func (x *X) Failed() bool {
 	return len(x.fails) > 0
 }
 
+// ClientsDone reports whether every client goroutine has finished.
+func (x *X) ClientsDone() bool { return x.clientsDone() }
+
 func (x *X) clientsDone() bool {
 	for _, g := range x.clients {
 		if !g.Done.Load() {
@@ -207,7 +210,7 @@ func (x *X) RunUntil(stop func() bool) {
 		if stop != nil && stop() {
 			return
 		}
-		if done && len(en) == 0 {
+		if done && len(en) == 0 && stop == nil {
 			return
 		}
 		if x.steps >= maxSteps {
@@ -265,9 +268,15 @@ func (x *X) RunUntil(stop func() bool) {
 			default:
 			}
 			x.steps++
+			t0 := time.Now()
+			woke := "arrive"
 			select {
 			case <-s.Arrive:
 			case <-time.After(remaining):
+				woke = "horizon"
+			}
+			if x.cfg.traceOn() {
+				x.trace = append(x.trace, fmt.Sprintf("[time +%v -> %s, parked=%d done=%v]", time.Since(t0), woke, parked, done))
 			}
 		}
 	}
@@ -350,6 +359,8 @@ func runOne(t *testing.T, cfg *Config, prefix []int) (res execResult) {
 		}()
 		synctest.Test(t, func(t *testing.T) {
 			x.T = t
+			// channels the root selects on while letting fake time pass must belong to the bubble
+			s.Arrive = make(chan struct{}, 1)
 			defer func() {
 				if r := recover(); r != nil {
 					x.Fail("panic|"+normPanic(r), fmt.Sprintf("scenario body panicked: %v\n%s", r, shortStack()))
@@ -434,7 +445,9 @@ func Explore(t *testing.T, cfg *Config, res *vk.Result, deadline time.Time) {
 		sc.States += int64(len(r.nodes) - len(it.prefix)) // decision states first visited by this execution
 		if r.leak != "" && !leakReported[cfg.Name] {
 			leakReported[cfg.Name] = true
-			res.EngineError("%s: goroutines left blocked at the end of an execution (%s); verdicts of this scenario are still from complete runs", cfg.Name, r.leak)
+			// not an engine error: the execution ran to its verdict; some goroutine of the
+			// system under test was still blocked on a channel when the bubble ended
+			sc.Note = "goroutines of the system under test were left blocked on channels when an execution ended (" + r.leak + ")"
 		}
 		if r.diverged != "" {
 			res.EngineError("%s: divergence while replaying prefix %v: %s", cfg.Name, it.prefix, r.diverged)
